@@ -476,6 +476,10 @@ func genC16(t *rapid.T) C16Case {
 		c.Server = rapid.SampledFrom([]string{"empty", "foreign", "mute"}).Draw(t, "server")
 	}
 	for i := rapid.IntRange(0, 12).Draw(t, "midiMsgs"); i > 0; i-- {
+		if rapid.IntRange(0, 2).Draw(t, "otherMessage") == 0 {
+			c.Midi = append(c.Midi, otherMidiMessage(t))
+			continue
+		}
 		st := byte(0x90)
 		if rapid.Bool().Draw(t, "off") {
 			st = 0x80
